@@ -418,7 +418,7 @@ CHECKS = {
 EXTRA_TEXT = {
  "C16": "The proxy can also remember a frame, cut the connection, and inject the remembered frame into the next connection between the same two nodes (it must not be delivered there).  A seventh message type (Ping) is part of the all-types runs; its first message has every field at its default and encodes to no bytes: authentic, so it must be delivered. The proxy can also keep one frame back and forward it together with the next one in a single write (both must be delivered, in order).",
  "C14": "The translator also checks, on the syntax tree, the assumption behind the opaque document fetch (dataFetch builds an http.Client with an overall Timeout); the thorough tier runs a data source that sends its headers and stalls inside the body and requires the pipeline's goroutines to be gone when the fetch's own 60 s have passed. Key-generation fault added: every node receives the grouping event a second time while the session it started is still running (the handler of the repeated event must return and leave no goroutine behind). Key-generation fault member-listed-twice: the participant list names member 0 twice; the handlers must return with the deadline and leave nothing behind.",
- "C20": "Algebraic relatives of each genuine signature - R || (l - s), (-R) || s, (-R) || (l - s), R || (s + 1), the signature under the negated key - must be rejected by both verifiers, and Equal must tell a point from its negation. One scalar object is assigned repeatedly (large value, then values with leading zero bytes, SetInt64 of -1 and 2, Set, Zero, 64-byte input, One) and the operands are checked to be unchanged. The curve arithmetic behind the signatures is exercised through point objects with histories (the register programs of props/pointmachine.go over the Ed25519 group: every register must encode like its logarithm's multiple of the base point computed afresh). The curve arithmetic has a model of its own (Models/Ed.v, constants regenerated from const.go by translator T5: prime, order, d, 2d, sqrt(-1), the base point): the four representations of ge.go with their formulas operation by operation, point.Add / Sub / Neg, geScalarMult with its signed radix-16 digits and table of 1A..8A, and ToBytes. Proved over any field of characteristic other than two: Add computes the twisted Edwards addition law on the affine coordinates and keeps T = XY/Z (C20_point_add), Sub is Add of the negative (C20_point_sub), Neg (C20_point_neg), the doubling inside Mul on a point of the curve is the law applied to (P, P) (C20_point_double), the sum does not depend on the extended coordinates representing the operands (C20_point_add_representation_independent); the constants satisfy their defining equations (C20_ed_constants: p = 2^255-19, d2 = 2d, sqrtM1^2 = -1, d = -121665/121666, base point on the curve with y = 4/5 and T Z = X Y). Tie: [k]B, [a]B + [b]B, [a]B - [b]B, -[a]B, [a]([b]B) for boundary and random scalars, and the small-logarithm registers of the point programs, against the extracted model byte for byte. Point decoding is modelled as well (Models/EdCodec.v: FromBytes with its candidate root, the two checks v x^2 = u / v x^2 = -u, the multiplication by sqrt(-1), the parity adjustment): over any field with sqrtm1^2 = -1 whatever is accepted is a well-formed point on the curve with the ordinate the bytes carry and x of the announced parity (C20_decoded_on_curve; nothing is assumed about the exponentiation, the code's own check is what the proof uses); in the instance Z/(2^255-19), on canonical input (32 bytes, ordinate below p, x = 0 not announced as odd) decode-then-encode gives back the input (C20_decode_then_encode) and different canonical strings never decode to the same point (C20_decode_injective_on_canonical). Tie: valid encodings, the other sign of x, bit flips, non-canonical ordinates y + p under both sign bits, the points with x = 0 under both sign bits, small and top ordinates, random strings and wrong lengths, against the extracted decoder; the judge takes the square root with math/big. The recoding of the scalar into signed radix-16 digits is proved for every scalar below 2^255: 64 digits, each in -8..8 (what the table and selectCached cover), and sum e_i 16^i is the scalar (C20_scalar_digits).",
+ "C20": "Algebraic relatives of each genuine signature - R || (l - s), (-R) || s, (-R) || (l - s), R || (s + 1), the signature under the negated key - must be rejected by both verifiers, and Equal must tell a point from its negation. One scalar object is assigned repeatedly (large value, then values with leading zero bytes, SetInt64 of -1 and 2, Set, Zero, 64-byte input, One) and the operands are checked to be unchanged. The curve arithmetic behind the signatures is exercised through point objects with histories (the register programs of props/pointmachine.go over the Ed25519 group: every register must encode like its logarithm's multiple of the base point computed afresh). The curve arithmetic has a model of its own (Models/Ed.v, constants regenerated from const.go by translator T5: prime, order, d, 2d, sqrt(-1), the base point): the four representations of ge.go with their formulas operation by operation, point.Add / Sub / Neg, geScalarMult with its signed radix-16 digits and table of 1A..8A, and ToBytes. Proved over any field of characteristic other than two: Add computes the twisted Edwards addition law on the affine coordinates and keeps T = XY/Z (C20_point_add), Sub is Add of the negative (C20_point_sub), Neg (C20_point_neg), the doubling inside Mul on a point of the curve is the law applied to (P, P) (C20_point_double), the sum does not depend on the extended coordinates representing the operands (C20_point_add_representation_independent); the constants satisfy their defining equations (C20_ed_constants: p = 2^255-19, d2 = 2d, sqrtM1^2 = -1, d = -121665/121666, base point on the curve with y = 4/5 and T Z = X Y). Tie: [k]B, [a]B + [b]B, [a]B - [b]B, -[a]B, [a]([b]B) for boundary and random scalars, and the small-logarithm registers of the point programs, against the extracted model byte for byte. Point decoding is modelled as well (Models/EdCodec.v: FromBytes with its candidate root, the two checks v x^2 = u / v x^2 = -u, the multiplication by sqrt(-1), the parity adjustment): over any field with sqrtm1^2 = -1 whatever is accepted is a well-formed point on the curve with the ordinate the bytes carry and x of the announced parity (C20_decoded_on_curve; nothing is assumed about the exponentiation, the code's own check is what the proof uses); in the instance Z/(2^255-19), on canonical input (32 bytes, ordinate below p, x = 0 not announced as odd) decode-then-encode gives back the input (C20_decode_then_encode) and different canonical strings never decode to the same point (C20_decode_injective_on_canonical). Tie: valid encodings, the other sign of x, bit flips, non-canonical ordinates y + p under both sign bits, the points with x = 0 under both sign bits, small and top ordinates, random strings and wrong lengths, against the extracted decoder; the judge takes the square root with math/big. The recoding of the scalar into signed radix-16 digits is proved for every scalar below 2^255: 64 digits, each in -8..8 (what the table and selectCached cover), and sum e_i 16^i is the scalar (C20_scalar_digits). Returned point and scalar encodings are the caller's (overwriting them changes no later encoding).",
  "C19": "Histories also contain reconnects (DisconnectAll then Connect, in half of the cases after an attempt that fails because no websocket endpoint answers; C19_reconnect_revives_all), directed ones being followed by a commit-reveal call and a burst. Histories run in child processes (a panic in one of the adaptor's goroutines is attributed to its history); half of the multi-endpoint rigs have a single websocket endpoint. Between the calls of a history the operator changes the gas price and the gas limit (SetGasPrice / SetGasLimit); every transaction an endpoint receives afterwards - on rigs with fewer websocket than RPC endpoints too - must carry the settings in force. The settings are a layer over the adaptor model (Models/AdaptorGas.v: per RPC endpoint a proxy and a commit-reveal session with transact options, the setters' loop over both lists, Connect rebuilding the sessions from the adaptor's fields): over any history every transaction any endpoint receives - first choice or fail-over, proxy or commit-reveal call - carries the configuration or the latest change (C19_gas_settings_in_force, by the invariant that every session carries the adaptor's current setting, C19_gas_initial), and forgetting the settings gives exactly the adaptor history of the other theorems (C19_gas_layer_transparent); the histories are compared with this layer's outputs (settings per received transaction).",
  "C13": "The real dispatch stage (VerifDispatchSign on the submitter) is cancelled while it waits for the node's own share, or after it registered, and 16 late shares arrive: the collector must neither panic nor stop serving another request. The end-to-end systems serve a second, undisturbed request after the first one (same submitter): it must be reported.",
  "C12": "Library-level probes: deals that every verifier approves but that have fewer commitments than the threshold, or one coefficient more / less, run to DistKeyShare on all members - no call may panic. Scenario added: the attacker echoes each member's own broadcast public key back under the attacker's index. Scenario added: both peers' shares reach the submitter before it registers the request (more shares waiting than its recovery takes); the node must serve the following request as well. Every signature-share scenario is followed by a second request.",
@@ -432,7 +432,7 @@ EXTRA_TEXT = {
  "C07": "Two further families: the document transfer breaks after 0, 1, half or all-but-one bytes (a member must then sign the same string as the others or nothing), and extracted results are held - sequentially and in 8 goroutines - while further documents are evaluated (they must stay what they were). Further: the commit-reveal handler is started with the event's own last-randomness object as its seed (as onchainLoop does), with last randomness 0 among the cases, and the event's numbers must be unchanged; a query that has fetched its document (empty selector) is held waiting for its submitter while another query runs to the end. The submitter stage is given a chain double whose registry views (IsPendingNode) answer true, or false, for every id: the submitter must still be the member the event's randomness designates.",
  "C08": "Self-consistent deals whose polynomial really has 1 or n+1..n+3 coefficients (session id and share derived from those commitments) must not be approved. Deals of a polynomial crafted so that the recipient's public-share evaluation adds a point to itself: the true share must be approved, the share 0 must not. Indices that agree with the recipient's own modulo 2^32 / 2^31 / 2^16 / 2^8 (share = the polynomial at THAT index) and index 0 for another member must be rejected. A valid threshold with one commitment more than that and the share taken from the first T coefficients only must not be approved.",
  "C09": "Every reconstruction compares the share objects before and after the call and uses them a second time (inputs are values). Polynomials whose constant term makes the Horner evaluation at the chosen index add a point to itself (the same element in two representations), and the negated share value, are among the Eval / Check cases. Qualifying sets of 21, 24, 33 and 64 members (products of abscissae beyond 2^63) and 12 members with indices near 64 are reconstructed in both groups. Commitment polynomials are built from point objects with a history (the register programs of C10, over G2 and Ed25519) without anything looking at them first: Eval, Check (true share accepted, share + 1 refused), Equal and Add against polynomials of freshly computed commitments, and Commit / Check over a base point with a history. The same group reached through two suite instances (bn256.NewSuite() next to suites.MustFind, two Ed25519 suites): equal coefficients compare equal, sums are defined.",
- "C11": "Decoding into a used receiver is run for receivers that came to their value by decoding, scalar multiplication (Jacobian), addition, negation, and for Null() on a used point, with the identity among the decoded elements. An affine receiver (decoded, or the generator) is used as the destination of an in-place sum and then encoded, decoded, cloned and doubled. GT has a model and theorems of its own (Models/GtCodec.v: at least 384 bytes, twelve 32-byte words each brought into the field modulo p, no membership test - as the source says): every element of F_p^12 survives encode-then-decode whatever follows it in the buffer (C11_roundtrip_gt), the encoding has 384 bytes and is injective (C11_length_gt, C11_injective_gt), shorter input is refused (C11_short_gt), what is delivered is canonical (C11_decoded_canonical_gt); the run decodes valid encodings with and without trailing bytes, every length class, words equal to p, p-1, p+1 and 2^256-1, bit flips and random 384-byte strings, against the extracted decoder and an independent word-by-word reduction.",
+ "C11": "Decoding into a used receiver is run for receivers that came to their value by decoding, scalar multiplication (Jacobian), addition, negation, and for Null() on a used point, with the identity among the decoded elements. An affine receiver (decoded, or the generator) is used as the destination of an in-place sum and then encoded, decoded, cloned and doubled. GT has a model and theorems of its own (Models/GtCodec.v: at least 384 bytes, twelve 32-byte words each brought into the field modulo p, no membership test - as the source says): every element of F_p^12 survives encode-then-decode whatever follows it in the buffer (C11_roundtrip_gt), the encoding has 384 bytes and is injective (C11_length_gt, C11_injective_gt), shorter input is refused (C11_short_gt), what is delivered is canonical (C11_decoded_canonical_gt); the run decodes valid encodings with and without trailing bytes, every length class, words equal to p, p-1, p+1 and 2^256-1, bit flips and random 384-byte strings, against the extracted decoder and an independent word-by-word reduction. An encoding handed out belongs to the caller: after every byte of a returned encoding has been overwritten, the same element and an equal element computed afterwards still encode as before and the encoding still decodes to the element - identity and ordinary elements of G1, G2, GT, and scalars.",
  "C15": "The harness looks at the frames only after the whole stream has been read (a frame handed out must stay what it was while later frames are read). The write loop is modelled over a transport that takes any positive number of bytes per call and proved to emit the whole frame (C15_writer_short_writes); the real writer runs over such a transport (every boundary of short frames, boundaries near both ends of longer ones, one byte at a time); two connections are read at the same time, one interrupted inside its length prefix while the other is read (prefixes that differ in every byte). The writer is run for every payload length within 5 of a power of two (up to 2^16 in the quick tier, 2^20 in the thorough tier): a frame is the payload plus 4 header bytes, so a buffer boundary inside the writer falls into one of these neighbourhoods.",
  "C17": "(c) Models/ConnTable.v - callHandler's table of dialled connections and receiveHandler's table of accepted ones, connections ending and their removal announcements processed at any later time: in every reachable state a table entry names a connection to that very peer in that table's direction, alive or with its removal announced (C17_tables_invariant); a request goes out on a connection dialled to THAT peer, a reply on the connection accepted from the requester (C17_request_uses_own_connection, C17_reply_uses_requesters_connection); once the announcements are processed the tables hold live connections only and a peer that went away leaves no entry, so the next request dials afresh (C17_settled_tables_live, C17_peer_gone_tables_clean); the variant that announces to the wrong channel is refuted (C17_wrong_channel_refuted). Tie: histories of requests in both directions, peers going away and coming back at new addresses, and stray replies against one real server and three real peers, after each event the size of the accepted table, the number of dialled connections as counted by the peers, and the class of what happened (handed to a live connection / dialled / dial failed / accepted / no client) compared with the extracted model. Responders answer three requests of every scenario with a 640 000-byte reply; at the end of every scenario the node and the responders leave (tear-down must not crash). The event-level runs judge on their own that a pending request whose reply has arrived returns that reply even when its caller starts waiting only afterwards; a request and a reply whose every field is at its default (empty payload) are part of the fault-free scenarios. Fault aged-connection: the connection to each peer is opened by a request that carries a deadline; the requests made on it after that deadline has passed must be served.",
 }
